@@ -24,6 +24,7 @@ InTx == s.intx
 
 TReset    == StepB(Is("reset") /\ s' = Open(RuleSet(Ev.rules), Ev.world) /\ blk' = EmptyBlock /\ Logged)
 TBeginTx  == Step(Is("BeginTx") /\ ~InTx /\ s' = BeginTx(s, Ev.a) /\ Logged)
+TBeginTxL == Step(Is("BeginTxL") /\ ~InTx /\ s' = BeginTxL(s, Ev.a, Ev.i, Ev.k) /\ Logged)
 TAddBal   == Step(Is("AddBalance") /\ InTx /\ s' = AddBalance(s, Ev.a, Ev.v) /\ Logged)
 TSubBal   == Step(Is("SubBalance") /\ InTx /\ CanSubBalance(s, Ev.a, Ev.v) /\ s' = SubBalance(s, Ev.a, Ev.v) /\ Logged)
 TSetBal   == Step(Is("SetBalance") /\ InTx /\ s' = SetBalance(s, Ev.a, Ev.v) /\ Logged)
@@ -55,7 +56,7 @@ TEndBlock == Step(Is("EndBlock") /\ ~InTx /\ CheckBAL /\ UNCHANGED s /\ Logged
 TIRoot    == Step(Is("IntermediateRoot") /\ InTx /\ ~CheckBAL /\ s' = Finalise(s) /\ Logged)
 
 TraceInit == s = Open(RulesPre158, EmptyWorld) /\ blk = EmptyBlock /\ l = 1
-TraceNext == \/ TReset \/ TBeginTx \/ TAddBal \/ TSubBal \/ TSetBal \/ TSetNonce \/ TSetCode \/ TSetState
+TraceNext == \/ TReset \/ TBeginTx \/ TBeginTxL \/ TAddBal \/ TSubBal \/ TSetBal \/ TSetNonce \/ TSetCode \/ TSetState
              \/ TDestruct \/ TCreateA \/ TEvmCreate \/ TReadAcc \/ TReadSlot \/ TSetTrn \/ TAddAddr \/ TAddSlot
              \/ TAddRef \/ TSubRef \/ TAddLog \/ TSnapshot \/ TRevert \/ TFinalise \/ TIRoot \/ TEndBlock
 TraceSpec == TraceInit /\ [][TraceNext]_<<s, blk, l>>
